@@ -1,5 +1,6 @@
 #![allow(dead_code)]
 mod c07;
+mod c20;
 mod enc;
 mod genval;
 mod out;
@@ -21,6 +22,7 @@ fn main() {
     let mut out = out::Out::new();
     match id {
         "C07" => c07::run(tier, seed, &mut out),
+        "C20" => c20::run(tier, seed, &mut out),
         _ => {
             eprintln!("unknown property {}", id);
             std::process::exit(2);
